@@ -307,6 +307,48 @@ impl Store {
 }
 
 
+#[cfg(feature = "gohla_pie_verif")]
+impl Store {
+  /// Verification hook: read-only dump of all nodes and their outgoing dependencies, in iteration order.
+  pub(crate) fn verif_dump(&self) -> Vec<crate::verif::VerifNode> {
+    use crate::verif::{VerifEdge, VerifNode};
+    let mut nodes = Vec::new();
+    for (rank, node) in self.graph.iter_unsorted() {
+      let (is_task, key, output) = match self.graph.get_node_data(&node) {
+        Some(NodeData::Task { task, output }) => (true, format!("{:?}", task), output.as_ref().map(|o| format!("{:?}", o))),
+        Some(NodeData::Resource(resource)) => (false, format!("{:?}", resource), None),
+        None => continue,
+      };
+      let mut edges = Vec::new();
+      for (dst, dependency) in self.graph.get_outgoing_edges(&node) {
+        let target = match self.graph.get_node_data(dst) {
+          Some(NodeData::Task { task, .. }) => format!("{:?}", task),
+          Some(NodeData::Resource(resource)) => format!("{:?}", resource),
+          None => String::from("<missing>"),
+        };
+        let (kind, checker, stamp) = match dependency {
+          Dependency::ReservedRequire => ("reserved", String::new(), String::new()),
+          Dependency::Require(d) => ("require", format!("{:?}", d.checker()), format!("{:?}", d.stamp())),
+          Dependency::Read(d) => ("read", format!("{:?}", d.checker()), format!("{:?}", d.stamp())),
+          Dependency::Write(d) => ("write", format!("{:?}", d.checker()), format!("{:?}", d.stamp())),
+        };
+        edges.push(VerifEdge { kind, target, checker, stamp });
+      }
+      let mut incoming = Vec::new();
+      for (src, _) in self.graph.get_incoming_edges(&node) {
+        incoming.push(match self.graph.get_node_data(src) {
+          Some(NodeData::Task { task, .. }) => format!("{:?}", task),
+          Some(NodeData::Resource(resource)) => format!("{:?}", resource),
+          None => String::from("<missing>"),
+        });
+      }
+      nodes.push(VerifNode { is_task, key, output, rank, edges, incoming });
+    }
+    nodes
+  }
+}
+
+
 #[cfg(test)]
 mod test {
   use std::path::PathBuf;
